@@ -20,13 +20,19 @@ CONSTANTS NumNT,      \* number of non-terminals (names A, B, C, D in this order
           K,          \* sentences up to this length are reported
           PrefixLen,  \* every alternative starts with this many copies of terminal "a" (prefix-heavy
                       \* families for nested common prefixes); MaxLen bounds the rest
+          Pool,       \* "all": every alternative up to MaxLen; "nts": the empty alternative, single terminals and
+                      \* sequences of 2..MaxLen NON-TERMINALS, at most one such sequence in the whole grammar
+                      \* (left-recursion focused family: what is nullable, what stands behind it, under every
+                      \* assignment of names to the roles)
           Emit
 
 NTS     == SubSeq(<<"A", "B", "C", "D">>, 1, NumNT)
 NtSet   == { NTS[i] : i \in 1 .. Len(NTS) }
 Symbols == NtSet \cup TERMS
 Pfx     == [i \in 1 .. PrefixLen |-> "a"]
-AltPool == { Pfx \o t : t \in UNION { [1 .. n -> Symbols] : n \in 0 .. MaxLen } }
+AltPool == IF Pool = "nts"
+             THEN {<<>>} \cup { <<t>> : t \in TERMS } \cup UNION { [1 .. n -> NtSet] : n \in 2 .. MaxLen }
+             ELSE { Pfx \o t : t \in UNION { [1 .. n -> Symbols] : n \in 0 .. MaxLen } }
 
 VARIABLES prods,   \* sequence (by NTS index) of alternative sequences
           cur,     \* index of the non-terminal being filled
@@ -39,6 +45,8 @@ Init == /\ prods = [i \in 1 .. Len(NTS) |-> <<>>] /\ cur = 1 /\ start = "" /\ ph
 AddAlt(alt) ==
   /\ phase = "build" /\ Len(prods[cur]) < MaxAlts
   /\ (prods[cur] # <<>> => prods[cur][Len(prods[cur])] # alt)
+  /\ (Pool = "nts" /\ Len(alt) > 1 =>               \* one sequence of non-terminals in the whole grammar
+         \A j \in 1 .. Len(NTS) : \A i \in 1 .. Len(prods[j]) : Len(prods[j][i]) <= 1)
   /\ prods' = [prods EXCEPT ![cur] = Append(@, alt)]
   /\ UNCHANGED <<cur, start, phase>>
 
